@@ -17,14 +17,14 @@ pub fn def() -> PropDef {
         run_unit,
         replay,
         required_probes: &["Sqrt_ParityAdjust", "Sqrt_LongInput", "Sqrt_Sticky", "Sqrt_Exact", "Wsr_RoundInside", "Wsr_Carry", "Wsr_CarryNewDigit"],
-        rule: "seeded non-negative decimals of 1..2000 digits at scales -2000..2000 of both parities, with dedicated families: inputs longer than 2(p+5) digits, perfect squares t^2, perfect squares +-1 unit in a far-away digit, roots whose digits after the p-th are 5000..0 (exact tie), 5000..0x, 4999..9x (built by squaring a (p+1..p+40)-digit root and perturbing), roots of all nines (carry into a new digit), 10^k; precision p in 1..150 with weight on 1..5 and 100, all 7 modes; every case through sqrt_with_context on value and reference, sqrt_abs / sqrt_copysign on x and -x, sqrt() for the default context; oracle = correctly rounded root from a verified integer square-root bracket, plus the directed-mode inequalities r^2 >= x / r^2 <= x checked separately. distinct = distinct (x, p, mode); non-trivial = the root is not representable in p digits (rounding decides)",
+        rule: "exhaustive small scope: every n in 1..3000 x scales -2..3 x p 1..4 x 7 modes; then seeded non-negative decimals of 1..2000 digits at scales -2000..2000 of both parities, with dedicated families: inputs longer than 2(p+5) digits, perfect squares t^2, perfect squares +-1 unit in a far-away digit, roots whose digits after the p-th are 5000..0 (exact tie), 5000..0x, 4999..9x (built by squaring a (p+1..p+40)-digit root and perturbing), roots of all nines (carry into a new digit), 10^k; precision p in 1..150 with weight on 1..5 and 100, all 7 modes; every case through sqrt_with_context on value and reference, sqrt_abs / sqrt_copysign on x and -x, sqrt() for the default context; oracle = correctly rounded root from a verified integer square-root bracket, plus the directed-mode inequalities r^2 >= x / r^2 <= x checked separately. distinct = distinct (x, p, mode); non-trivial = the root is not representable in p digits (rounding decides)",
     }
 }
 
 fn plan(tier: Tier) -> Vec<Unit> {
     match tier {
-        Tier::Quick => crate::util::split_budget("roots", 300_000, 2_000),
-        Tier::Thorough => crate::util::split_budget("roots", 30_000_000, 10_000),
+        Tier::Quick => { let mut v = crate::util::split_budget("roots", 300_000, 2_000); v.extend(crate::util::split_budget("small", 3_000, 60)); v }
+        Tier::Thorough => { let mut v = crate::util::split_budget("roots", 30_000_000, 10_000); v.extend(crate::util::split_budget("small", 3_000, 30)); v }
         Tier::Miri => crate::util::split_budget("roots", 4, 2),
     }
 }
@@ -109,6 +109,24 @@ pub fn gen_radicand(r: &mut Rng, k: u32, p: u64, i: u64) -> Dec {
 }
 
 fn run_unit(unit: &Unit, r: &mut Rng, ctx: &mut Ctx) {
+    if unit.kind == "small" {
+        // exhaustive: every n in 1..=3000 x scale -2..=3 x p 1..=4 x 7 modes
+        for idx in unit.start..unit.start + unit.count {
+            let n = idx as i64 + 1;
+            for s in -2i64..=3 {
+                for p in 1u64..=4 {
+                    for &mode in MODES.iter() {
+                        let case = Case::new("sqrt").push(Dec::new(BigInt::from(n), s).tok()).push(p).push(mode_name(mode));
+                        check_case(&case, ctx);
+                    }
+                }
+            }
+        }
+        if unit.start == 0 {
+            ctx.exhaustive_notes.push("C10 small scope: every n in 1..3000 x scales -2..3 x p 1..4 x 7 modes (504 000 cases, all forms)".into());
+        }
+        return;
+    }
     for i in 0..unit.count {
         let p = gen_precision(r);
         let x = if r.chance(1, 60) { Dec::new(BigInt::zero(), r.range(-50, 50)) } else { gen_radicand(r, 2, p, unit.start + i) };
